@@ -44,8 +44,51 @@ def unprotected_only(ctx):
     return out
 
 
+def multi_signer(ctx):
+    """General JSON JWS with several signers verified against a key SET (keys chosen by kid): every signature
+    present must verify under the key resolved for it - an entry that names an unknown kid, or a known kid with a
+    signature that is not that key's, makes the whole object fail."""
+    from joserfc.jwk import KeySet
+    rng = ctx.rng
+    out = []
+    signers = [("HS256", "oct32", "mac"), ("ES256", "p256", "alice"), ("EdDSA", "ed25519", "bob"), ("RS256", "rsa2048", "carol")]
+    for n in (1, 2, 3):
+        chosen = rng.sample(signers, n)
+        text = J.b64u(b"multi-signer payload").decode()
+        sigs = []
+        for alg, kn, kid in chosen:
+            hseg = J.b64u(J.jwsref.spell({"alg": alg, "kid": kid}, rng, 0))
+            sig = J.jwsref.sign(alg, J.native_priv(kn), hseg + b"." + text.encode())
+            sigs.append({"protected": hseg.decode(), "signature": J.b64u(sig).decode()})
+        ks = KeySet([J.make_key(kn, private=False, kid=kid) for _, kn, kid in chosen])
+        meta = {"alg": "+".join(a for a, _, _ in chosen), "key": chosen[0][1], "payload": b"multi-signer payload", "header": {}}
+        good = {"payload": text, "signatures": sigs}
+        out.append(J.VCase("general", good, ks, note="valid-multi-signer", meta=meta))
+        junk = J.b64u(rng.randbytes(64)).decode()
+        extra_alg, extra_kn, _ = rng.choice(signers)
+        # (1) an extra entry for a kid the verifier does not know
+        h_unknown = J.b64u(J.jwsref.spell({"alg": "ES256", "kid": "nobody-we-know"}, rng, 0)).decode()
+        out.append(J.VCase("general", {"payload": text, "signatures": sigs + [{"protected": h_unknown, "signature": junk}]}, ks,
+                           note="extra-signature-unknown-kid", meta=meta))
+        out.append(J.VCase("general", {"payload": text, "signatures": [{"protected": h_unknown, "signature": junk}] + sigs}, ks,
+                           note="extra-signature-unknown-kid-first", meta=meta))
+        # (2) an extra entry naming a known kid, with octets that are not that key's signature
+        alg0, _, kid0 = chosen[0]
+        h_known = J.b64u(J.jwsref.spell({"alg": alg0, "kid": kid0}, rng, 0)).decode()
+        out.append(J.VCase("general", {"payload": text, "signatures": sigs + [{"protected": h_known, "signature": junk}]}, ks,
+                           note="extra-signature-known-kid-junk", meta=meta))
+        # (3) the kid only in the unprotected header of the extra entry
+        out.append(J.VCase("general", {"payload": text, "signatures": sigs + [{"protected": J.b64u(b'{"alg":"ES256"}').decode(),
+                                                                            "header": {"kid": "nobody-we-know"}, "signature": junk}]}, ks,
+                           note="extra-signature-unknown-kid-unprotected", meta=meta))
+        # (4) a signature entry without any key-selecting information and junk octets
+        out.append(J.VCase("general", {"payload": text, "signatures": sigs + [{"protected": J.b64u(b'{"alg":"HS256"}').decode(), "signature": junk}]}, ks,
+                           note="extra-signature-no-kid", meta=meta))
+    return out
+
+
 def run(ctx):
-    cases = build(ctx, 1 if ctx.tier == "quick" else 6) + unprotected_only(ctx)
+    cases = build(ctx, 1 if ctx.tier == "quick" else 6) + unprotected_only(ctx) + multi_signer(ctx)
     J.run_verify_cases(ctx, "jws-verify", cases, check_c01=True, prop="C01")
     if ctx.tier == "thorough":
         # every bit of every decoded segment for one token per algorithm family
